@@ -636,6 +636,11 @@ func (s *Server) handleLCPTermRequest(session *Session, pkt *LCPPacket) {
 	}
 	s.sendPPPPacket(session, ProtocolLCP, resp.Serialize())
 
+	// Release IP
+	if s.clientIPPool != nil {
+		s.clientIPPool.Release(session.SessionID)
+	}
+
 	// Terminate session
 	session.SetState(StateClosed)
 	s.sessions.RemoveSession(session.ID)
